@@ -6,6 +6,8 @@ import (
 	"math/big"
 
 	"github.com/pkg/errors"
+	"polycry.pt/poly-go/sortedkv"
+	"polycry.pt/poly-go/sortedkv/memorydb"
 
 	rt "perun.network/go-perun/internal/verifrt"
 	"perun.network/go-perun/wire/perunio"
@@ -90,3 +92,27 @@ func VerifSmokeErrors() {
 
 // VerifSmokeEmpty measures the fixed cost of a path.
 func VerifSmokeEmpty() {}
+
+// VerifSmokeBatch: map-based batch with deletes (engine self-test).
+func VerifSmokeBatch() {
+	db := memorydb.NewDatabase()
+	t := sortedkv.NewTable(db, "T:")
+	b := t.NewBatch()
+	for _, k := range []string{"a", "b", "c", "d"} {
+		b.Put(k, "v"+k)
+	}
+	rt.Assert("smoke.batch.apply", b.Apply() == nil)
+	b2 := t.NewBatch()
+	keys := append([]string{"a", "b"}, []string{"c", "d"}...)
+	for _, k := range keys {
+		rt.Assert("smoke.batch.del", b2.Delete(k) == nil)
+	}
+	err := b2.Apply()
+	rt.Assert("smoke.batch.apply2", err == nil)
+	it := db.NewIterator()
+	n := 0
+	for it.Next() {
+		n++
+	}
+	rt.Assert("smoke.batch.empty", n == 0)
+}
